@@ -83,12 +83,12 @@ Qed.
 (* ---- the reader's loops as top-level functions ---- *)
 Definition gl_child_opt (fi c : aval) : result bool :=
   match jget "id" c with Err e => Err e | Ok cid =>
-  match finfo_get fi cid "optional" with Err e => Err e | Ok ov => jbool ov end end.
+  match finfo_get fi cid "optional" with Err e => Err e | Ok ov => Ok (jtruthy ov) end end.
 
 Definition gl_flags (fi : aval) (chl : list aval) : list (option bool) :=
   map (fun c => match jget "id" c with
                 | Ok cid => match finfo_get fi cid "optional" with
-                            | Ok ov => match jbool ov with Ok b => Some b | Err _ => None end
+                            | Ok ov => Some (jtruthy ov)
                             | Err _ => None
                             end
                 | Err _ => None
@@ -182,8 +182,7 @@ Proof.
     cbn [gl_goc]. rewrite <- IH. unfold gl_child_opt.
     destruct (glencoe_parse_tree fuel fi _ (PPath here) c) as [pc|e]; [|reflexivity].
     destruct (jget "id" c) as [cid|e]; [|reflexivity].
-    destruct (finfo_get fi cid "optional") as [ov|e]; [|reflexivity].
-    destruct (jbool ov) as [opt|e]; reflexivity. }
+    destruct (finfo_get fi cid "optional") as [ov|e]; reflexivity. }
   rewrite HG. reflexivity.
 Qed.
 
@@ -200,7 +199,6 @@ Proof.
   unfold gl_child_opt, gl_flags. cbn [map].
   destruct (jget "id" c) as [cid|e]; [|discriminate].
   destruct (finfo_get fi cid "optional") as [ov|e]; [|discriminate].
-  destruct (jbool ov) as [b|e]; [|discriminate].
   intros H. injection H as ->. reflexivity.
 Qed.
 
